@@ -227,6 +227,7 @@ def read_chart(xml_bytes, ctx):
                         n_checked_f += 1
                 sers.append(refs)
     n_all_f = sum(1 for _ in root.iter(C + "f"))
+    ctx["pie"] = pa is not None and any(pa.find(C + t) is not None for t in ("pieChart", "pie3DChart", "ofPieChart"))
     return date1904, sers, n_all_f - n_checked_f, ext
 
 
@@ -280,7 +281,12 @@ def check_state(xml_bytes, xlsx_bytes, kind, data, ctx, rec=None, known=None):
         series = S.xy_series_list(data, kind == "bubble")
         cats_are_dates = cats_are_numeric = False
 
-    if len(sers) != len(series):
+    if ctx.get("pie") and len(sers) == 1 and len(series) > 1:
+        # a pie plot shows one series: the XML writer emits the first only (which data the XML reports is
+        # C07's clause); the references that exist are judged
+        if rec is not None:
+            rec.cls("pie:xml-holds-first-series-only")
+    elif len(sers) != len(series):
         raise Violation("C08:ser-count-vs-input:%s" % step, "%d c:ser for %d supplied series" % (len(sers), len(series)))
 
     if cats_are_dates and sers and date1904 != wb.date1904:
@@ -385,11 +391,12 @@ def check_state(xml_bytes, xlsx_bytes, kind, data, ctx, rec=None, known=None):
         if not _num_eq(cv, cell.value):
             if role == "cat" and cats_are_dates:
                 lbl = cat_cells.get((i, 0))
-                if (isinstance(lbl, dt.datetime) and day_fraction(lbl) > 0
-                        and abs((cell.value - cv) - day_fraction(lbl)) < 1e-6):
-                    viol("C08:cache-vs-cell:cat:%s:datetime-time-of-day" % kn,
-                                    "%s: label %r: cached serial %r is the day only, cell %s holds %r (day + time)"
-                                    % (what, lbl, cached, where, cell.value))
+                if isinstance(lbl, dt.datetime):
+                    # datetime labels go to XlsxWriter unconverted: it keeps the time of day and takes
+                    # 1900-01-01Thh:mm for a time-only value, while the cache holds the day serial
+                    viol("C08:datetime-label:cat:%s" % kn,
+                         "%s: datetime label %r: cached serial %r (day only) != cell %s %r"
+                         % (what, lbl, cached, where, cell.value))
                     return
             viol("C08:cache-vs-cell:%s:%s:value" % (role, kn),
                             "%s: cached %r != cell %s %r" % (what, cached, where, cell.value))
@@ -411,6 +418,10 @@ def check_state(xml_bytes, xlsx_bytes, kind, data, ctx, rec=None, known=None):
             exp = own_serial(supplied, wb.date1904)
             if cell.kind == "num" and (_num_eq(cell.value, exp) or
                                        abs(cell.value - (exp + day_fraction(supplied))) < 1e-6):
+                return
+            if isinstance(supplied, dt.datetime):
+                viol("C08:datetime-label:%s:%s" % (role, kn), "%s: datetime label %r = serial %d (+%.6f), cell %s "
+                     "holds %r" % (what, supplied, exp, day_fraction(supplied), where, cell))
                 return
             viol(key + ":date", "%s: supplied %r = serial %d (+%.6f) in the workbook's date system "
                             "(date1904=%s), cell %s holds %r" % (what, supplied, exp, day_fraction(supplied),
@@ -776,13 +787,13 @@ def run_case(case, rec=None, known=None):
             prs = Presentation(corpus.path(PLACEHOLDER_DECK))
             slide_idx, chart_no = PLACEHOLDER_SLIDE, 0
             ph = prs.slides[slide_idx].shapes[0]
-            with core.sut("C08:insert_chart:%s" % _kindname(kind)):
+            with core.sut("C08:chart-from-data:%s" % _kindname(kind)):
                 chart = ph.insert_chart(ctype, cd).chart
         else:
             prs = Presentation()
             slide = prs.slides.add_slide(prs.slide_layouts[6])
             slide_idx, chart_no = 0, 0
-            with core.sut("C08:add_chart:%s" % _kindname(kind)):
+            with core.sut("C08:chart-from-data:%s" % _kindname(kind)):
                 chart = slide.shapes.add_chart(ctype, Inches(1), Inches(1), Inches(6), Inches(4), cd).chart
         xml, xlsx = observe_memory(chart, "add")
         info = check_state(xml, xlsx, kind, datas[0], {"step": "add", "generated": True}, rec, known)
@@ -807,7 +818,7 @@ def run_case(case, rec=None, known=None):
     for i in range(di, len(datas)):
         with core.sut("C08:build-chart-data:%s" % _kindname(kind)):
             cd = S.build_chart_data(kind, datas[i])
-        with core.sut("C08:replace_data:%s" % _kindname(kind)):
+        with core.sut("C08:chart-from-data:%s" % _kindname(kind)):
             chart.replace_data(cd)
         xml, xlsx = observe_memory(chart, "replace")
         info = check_state(xml, xlsx, kind, datas[i], {"step": "replace", "generated": generated}, rec, known)
@@ -956,8 +967,9 @@ def run_job(job, seed, tier, rec, known):
             return f + f2
         if k in ("grid", "corpus"):
             allc = grid_cases(tier) if k == "grid" else corpus_cases()
-            mine = allc[job["shard"]::(NGRID if k == "grid" else NCORPUS)]
-            # heavy (700-class) cases are spread by the stride; order small-to-large inside a shard
+            # deal the cases out heaviest first so the 700-class ones spread evenly over the shards
+            allc = sorted(allc, key=lambda c: -sum(d.get("bulk", 0) for d in c["datas"]))
+            mine = allc[job["shard"]::(NGRID if k == "grid" else NCORPUS)][::-1]
             f = run_plain(lambda c: run_case(c, rec, known), mine, rec=rec, known=known)
             for x in f:
                 x["case"] = ["case", x["case"]]
